@@ -3,7 +3,7 @@ From Coq Require Import ZArith List.
 Import ListNotations.
 From V Require Import Valid.Hier Valid.Walk Valid.FlatRegion Valid.Run.
 From Coq Require Import Lia.
-From V Require Import Model.Pipe Model.PipeBounded Model.PipeBounded4 Model.Graph Model.Edits Model.Edits2 Model.JoinPath Model.Refine Model.CbPath Model.LoopEdit Model.LoopSpec Model.LoopPath.
+From V Require Import Model.Pipe Model.PipeBounded Model.PipeBounded4 Model.Graph Model.Edits Model.Edits2 Model.JoinPath Model.Refine Model.CbPath Model.LoopEdit Model.LoopSpec Model.LoopPath Model.LoopPath2.
 
 Theorem C06_checker_sound : forall h, c06_check h = true -> CtrlSafe h.
 Proof. exact c06_check_sound. Qed.
@@ -113,3 +113,51 @@ Proof.
   exact (loop_rotate_keeps_ctrace g top hd exits todo isback latch sexit ev bv names g' true).
 Qed.
 Print Assumptions C06_loop_rotation_ctrl_safe.
+
+(* the same for loops with several headers (unification, then rotation on the unified head): the head
+   reads its variable right after an entry assignment block or, on a back edge, after the assignment
+   block before the latch set it; the exit branch reads the same variable after an exit assignment *)
+Theorem C06_multi_header_loop_rotation_ctrl_safe :
+  forall g top H v entries headers names_cb g1 exits todo header_tbl isback latch sexit bv names g2,
+    let needs := match exits with _ :: _ :: _ => true | _ => false end in
+    insert_cb g H v entries headers names_cb C_HEAD = Ok g1 ->
+    efind g1 H = Some (mkE headers [] (EBranch C_HEAD v header_tbl)) ->
+    loop_rotate g1 H headers exits todo true header_tbl isback latch sexit v bv names = Ok g2 ->
+    NoDup entries /\ ~ In H entries ->
+    (NoDup names_cb /\ forall a, In a names_cb ->
+        efind g a = None /\ a <> H /\ ~ In a entries /\ ~ In a headers /\ a <> top) ->
+    (forall p b, In p entries -> efind g p = Some b ->
+        NoDup (e_jt b) /\ (forall a, In a names_cb -> ~ In a (e_jt b)) /\
+        (forall c w t, e_kind b = EBranch c w t -> NoDup (map fst t))) ->
+    ~ In top (ekeys g) /\ top <> H ->
+    efind g H = None ->
+    (forall x b t, efind g x = Some b -> In t (e_jt b) -> In t (ekeys g)) ->
+    NoDup headers /\ (forall s, In s headers -> In s (ekeys g)) /\ (forall s, In s headers -> ~ In s exits) ->
+    (v <> bv /\ forall x b, efind g x = Some b ->
+        match e_kind b with
+        | EAssign a => forall p, In p a -> fst p <> v /\ fst p <> bv
+        | EBranch _ w _ => w <> v /\ w <> bv
+        | EPlain _ => True
+        end) ->
+    (NoDup todo /\ forall p, In p todo -> p = H \/
+        (~ In p entries /\ exists b, efind g p = Some b /\ nonbranch b /\ e_be b = [] /\ NoDup (e_jt b) /\
+                                     (forall a, In a names -> ~ In a (e_jt b)))) ->
+    (forall t, In t headers -> isback H t = false) ->
+    (NoDup names /\ forall a, In a names ->
+        efind g a = None /\ ~ In a names_cb /\ a <> H /\ ~ In a todo /\ a <> latch /\ a <> sexit /\ a <> top) ->
+    efind g latch = None /\ ~ In latch names_cb /\ latch <> H /\ latch <> top /\ ~ In latch todo ->
+    (needs = true ->
+        efind g sexit = None /\ ~ In sexit names_cb /\ sexit <> H /\ sexit <> latch /\ sexit <> top /\ ~ In sexit todo) ->
+    NoDup exits /\ (forall x, In x exits -> In x (ekeys g)) ->
+    (forall t, In t headers -> exists p b k, In p entries /\ efind g p = Some b /\ nth_error (e_jt b) k = Some t) ->
+    forall n e e' ds,
+      (exists b, efind g n = Some b /\ e_kind b = EPlain 100) ->
+      E (Fu v bv) e e' ->
+      CTrace (ehier top g) (resolve_flat (ehier top g)) true n e ds ->
+      CTrace (ehier top g2) (resolve_flat (ehier top g2)) true n e' ds.
+Proof.
+  intros g top H v entries headers names_cb g1 exits todo header_tbl isback latch sexit bv names g2 needs.
+  exact (unified_rotation_keeps_ctrace g top H v entries headers names_cb g1 exits todo header_tbl isback
+           latch sexit bv names g2 true).
+Qed.
+Print Assumptions C06_multi_header_loop_rotation_ctrl_safe.
